@@ -220,6 +220,9 @@ type Recorder struct {
 	Overlap   bool     // two writer calls were in progress at the same time
 	active    int32
 	OnFlush   func(frame string, index int)
+	// DuringFlush runs while the Flush call is still in progress (a slow client): a writer call
+	// by another goroutine in that time is an overlap.
+	DuringFlush func(index int)
 }
 
 func (r *Recorder) enter(name string) func() {
@@ -251,6 +254,9 @@ func (r *Recorder) Flush() error {
 	r.Frames = append(r.Frames, frame)
 	idx := len(r.Frames) - 1
 	cb := r.OnFlush
+	if r.DuringFlush != nil {
+		r.DuringFlush(idx)
+	}
 	done()
 	if cb != nil {
 		cb(frame, idx)
